@@ -494,6 +494,30 @@ theorem compat_sound_failed_on_recursive_types_before_R6 :
     ¬ CompatSoundStatementV { cycleKeepsInnerStack := true } := fun h =>
   R6_value_not_right (h tR6 9 13 64 R6_closed.1 R6_closed.2.1 R6_closed.2.2 R6_accepted vR6 R6_value_left)
 
+/-- R7 (OPEN): 0 `^1`, 1 `^2`, 2 never, 3 `#^1 -> ^2` (a function from itself to the enclosing union),
+4 `F[#^1 -> ^2]`, 5 `Ok`, 6 `'p = Ok | F[#^1 -> ^]`, 7 `Z`, 8 `'q = Ok | F[#^1 -> ^] | Z`. The function type 3 is
+ONE id; below `'p` it is `μf. #f -> 'p`, below `'q` it is `μg. #g -> 'q`. `f ≤ g` asks `g ≤ f` for the parameter;
+that question is the same pair of ids `(3, 3)`, the assumption just made answers it, and `'p ≤ 'q` is accepted
+although `g ≤ f` needs `'q ≤ 'p`, which fails on `Z`. (F = 2, Z = 3) -/
+def tR7 : Table :=
+  ⟨[.cycle 1, .cycle 2, .union [], .callable 0 1 2, .tuple 2, .tuple 1, .union [5, 4], .tuple 3,
+    .union [5, 4, 7]],
+   [⟨none, []⟩, ⟨some 1, []⟩, ⟨some 2, [(none, 3)]⟩, ⟨some 3, []⟩]⟩
+
+/-- the same two types with an id of its own for every occurrence (6 = `'p`, 14 = `'q`) -/
+def tR7u : Table :=
+  ⟨[.tuple 2, .cycle 1, .cycle 2, .union [], .callable 1 2 3, .tuple 3, .union [0, 5], .tuple 4, .cycle 1,
+    .cycle 2, .union [], .callable 8 9 10, .tuple 5, .tuple 6, .union [7, 12, 13]],
+   [⟨none, []⟩, ⟨some 1, []⟩, ⟨some 1, []⟩, ⟨some 2, [(none, 4)]⟩, ⟨some 1, []⟩, ⟨some 2, [(none, 11)]⟩,
+    ⟨some 3, []⟩]⟩
+
+theorem R7_accepted : isCompatible tR7 64 6 8 = some true := by decide
+/-- …and refused as soon as the two occurrences of the function type do not share their id -/
+theorem R7_refused_unfolded : isCompatible tR7u 64 6 14 = some false := by decide
+/-- the converse, which the parameter position needs, is refused in both tables -/
+theorem R7_converse_refused : isCompatible tR7 64 8 6 = some false ∧ isCompatible tR7u 64 14 6 = some false := by
+  decide
+
 /-- R2: 0 int, 1 never, 2 `@(never / int)`, 3 `@(int / int)` — the first is assignable to the
 second, a process declared with type 2 inhabits both, yet they "do not overlap" -/
 def tR2 : Table :=
